@@ -295,7 +295,7 @@ pub fn run(ctx: &Ctx) -> i32 {
     }
     ctx.finish(
         "exploration",
-        "(oo) EVERY sequence of up to 3 tokens of the 64-token core of C08 under -, u, v (800k patterns; thorough: quadruples too); (o) EVERY code point 0..=0x10FFFF (surrogates included) in every role whose handling depends on the code point: as a literal, doubled, in a negated class and as a range start under i / iu / iv; as a group name, in a \\k reference, as an identity escape and as a class escape under - / u / v; (i) arbitrary code point sequences <= 64 incl. surrogates (never above 0x10FFFF); (ii) token soup: 1-10 (14) fragments from ~230 syntax fragments (every bracket, quantifier shape, escape family, group opener, v-mode operator, property names); (iii) valid generated patterns mutated by insert/delete/duplicate/swap/replace and compiled under another mode; (iv) 20 size-parametric adversarial families (alternatives, nesting of groups/lookarounds/classes/modifiers, group/loop counts, class members, long literals, huge counts, count towers, duplicate names, string sets) at sizes up to 70k (300k thorough), compiled on a thread with the default 2 MiB stack. All flag sets, opt and no_opt. Oracle: from_unicode returns Ok or Err - no panic (catch_unwind), no process death (supervisor + case journal), within a deterministic tick budget A + B*n*log2(n+2) (hook). Non-trivial = the input contains one of ( [ { \\ | * + ? (families: always).",
+        "(oo) EVERY sequence of up to 3 tokens of the 71-token core of C08 under -, u, v (800k patterns; thorough: quadruples too); (o) EVERY code point 0..=0x10FFFF (surrogates included) in every role whose handling depends on the code point: as a literal, doubled, in a negated class and as a range start under i / iu / iv; as a group name, in a \\k reference, as an identity escape and as a class escape under - / u / v; (i) arbitrary code point sequences <= 64 incl. surrogates (never above 0x10FFFF); (ii) token soup: 1-10 (14) fragments from ~230 syntax fragments (every bracket, quantifier shape, escape family, group opener, v-mode operator, property names); (iii) valid generated patterns mutated by insert/delete/duplicate/swap/replace and compiled under another mode; (iv) 20 size-parametric adversarial families (alternatives, nesting of groups/lookarounds/classes/modifiers, group/loop counts, class members, long literals, huge counts, count towers, duplicate names, string sets) at sizes up to 70k (300k thorough), compiled on a thread with the default 2 MiB stack. All flag sets, opt and no_opt. Oracle: from_unicode returns Ok or Err - no panic (catch_unwind), no process death (supervisor + case journal), within a deterministic tick budget A + B*n*log2(n+2) (hook). Non-trivial = the input contains one of ( [ { \\ | * + ? (families: always).",
         &["hook: compile-time ticks in the parser's input primitives and term loop, optimizer fixpoints and emitter loop; a loop that never touches those is only caught by the supervisor's wall-clock watchdog (reported INCONCLUSIVE, exit 2, never as a violation)", "stack exhaustion is judged on the release build with a 2 MiB thread stack"],
     )
 }
